@@ -156,7 +156,7 @@ def linear_cg(
         precond = True
 
     # If we are running m CG iterations, we obviously can't get more than m Lanczos coefficients
-    if max_tridiag_iter > max_iter:
+    if n_tridiag and max_tridiag_iter > max_iter:
         raise RuntimeError("Getting a tridiagonalization larger than the number of CG iterations run is not possible!")
 
     # Check matmul_closure object
